@@ -26,7 +26,7 @@ ASSUMPTIONS = [
     "A4 `np` inside unyt modules is real NumPy except: float casts of object payloads are no-ops; dtype(...).type(v) is the identity on a symbolic real; a float64/complex128 dtype built inside unyt compares equal to the dtype of an object payload; isclose/allclose are the formula |a-b| <= atol + rtol*|b|",
     "A5 unyt.array.DISALLOWED_DTYPES without 'O'; the dtype-kind gate in Unit.__mul__ admits 'O' (load-time AST rewrite of the one tuple, checked to exist exactly once)",
     "A6 transcendental functions are uninterpreted; roots are witness variables w>=0, w**q==x; floor/rint/trunc via ToInt",
-    "A7 every lru_cache of the unyt modules is cleared at the start of every path (except where a harness says otherwise)",
+    "A7 at the start of every path (and of every concrete replay / conformance run) every lru_cache of the unyt modules is cleared and the module-level / class-level containers and simple globals of the unyt modules and the default registry's table and string cache are put back to their state after import (except where a harness says otherwise); inside a path nothing is reset, so histories see all memo layers",
     "A8 NumPy kernels that refuse object payloads are uninterpreted functions of their stripped arguments",
     "A9 SymReal is registered as numbers.Number/Real and carries NumPy-scalar attributes",
     "A10 harness symbol names are checked not to collide with unyt's name alternatives",
@@ -97,7 +97,7 @@ def _run_case(idx):
     messages = []
 
     def body(ex):
-        shims.clear_caches(mods)
+        shims.reset_library(mods)
         ctx = SymCtx(mods, ex, stats, case.id, seed=seed, oblig_timeout_ms=ot)
         try:
             if state["first"]:
@@ -166,7 +166,7 @@ def run_pinned(case, mods, seed):
     box = {}
 
     def body(ex):
-        shims.clear_caches(mods)
+        shims.reset_library(mods)
         ctx = SymCtx(mods, ex, stats, case.id, pins={}, seed=seed)
         box["ctx"] = ctx
         return case.fn(ctx)
